@@ -396,7 +396,11 @@ func TestC06(t *testing.T) {
 	}
 	for _, op := range []string{"upload", "commit", "label-move"} {
 		scs = append(scs, c06readerScenario(op))
-		bounds = append(bounds, [2]int{pb, 0})
+		b := pb
+		if !lib.Thorough() && op != "upload" {
+			b = 1 // quick: 2 preemptions against the upload, 1 against commit / label move
+		}
+		bounds = append(bounds, [2]int{b, 0})
 	}
 	stall := 6 * time.Minute
 	if lib.Thorough() {
